@@ -88,6 +88,9 @@ def fill_tpl(text, values):
 
 
 def parse_ins(text):
+    """Instruction file -> list of instruction lines, each a list of items:
+    ('marker', text) | ('line', n) | ('fixed'|'semi', name, c1, c2) |
+    ('free', name) | ('w',) | ('dum',)"""
     lines = split_lines(text)
     head = lines[0].split()
     if len(head) != 2 or head[0] != 'pif' or len(head[1]) != 1:
@@ -95,41 +98,112 @@ def parse_ins(text):
     delim = head[1]
     instr = []
     for line in lines[1:]:
-        line = line.strip()
-        if not line:
+        rest = line.strip()
+        if not rest:
             continue
-        if line.startswith(delim):
-            if not line.endswith(delim) or len(line) < 3:
-                raise PestError('bad primary marker %r' % line)
-            instr.append(('marker', line[1:-1]))
-            continue
-        m = re.fullmatch(r'l(\d+)\s+\[(\w+)\](\d+):(\d+)', line)
-        if not m:
-            raise PestError('unsupported instruction %r' % line)
-        instr.append(('fixed', int(m.group(1)), m.group(2),
-                      int(m.group(3)), int(m.group(4))))
+        items = []
+        first = True
+        while rest:
+            if rest.startswith(delim):
+                end = rest.find(delim, 1)
+                if end < 0:
+                    raise PestError('unbalanced marker in %r' % line)
+                items.append(('marker', rest[1:end], first))
+                rest = rest[end + 1:].lstrip()
+            else:
+                tok, _, rest = rest.partition(' ')
+                rest = rest.lstrip()
+                m = re.fullmatch(r'[lL](\d+)', tok)
+                if m and first:
+                    items.append(('line', int(m.group(1))))
+                elif tok.lower() == 'w':
+                    items.append(('w',))
+                elif tok.lower() in ('dum', '!dum!'):
+                    items.append(('free', 'dum'))
+                else:
+                    m = re.fullmatch(r'\[(\w+)\](\d+):(\d+)', tok)
+                    m2 = re.fullmatch(r'\((\w+)\)(\d+):(\d+)', tok)
+                    m3 = re.fullmatch(r'!(\w+)!', tok)
+                    if m:
+                        items.append(('fixed', m.group(1), int(m.group(2)),
+                                      int(m.group(3))))
+                    elif m2:
+                        items.append(('semi', m2.group(1), int(m2.group(2)),
+                                      int(m2.group(3))))
+                    elif m3:
+                        items.append(('free', m3.group(1)))
+                    else:
+                        raise PestError('unsupported instruction %r in %r'
+                                        % (tok, line))
+            first = False
+        instr.append(items)
     return instr
 
 
 def apply_ins(instr, output_text):
     """Execute the instruction set on a model output file; returns
-    [(observation name, text of the field)] in instruction order"""
+    [(observation name, text of the field, whole line)] in instruction
+    order"""
     lines = split_lines(output_text)
     cur = -1
+    col = 0
     out = []
-    for ins in instr:
-        if ins[0] == 'marker':
-            k = cur + 1
-            while k < len(lines) and ins[1] not in lines[k]:
-                k += 1
-            if k >= len(lines):
-                raise PestError('marker %r not found' % ins[1])
-            cur = k
-        else:
-            _, adv, name, c1, c2 = ins
-            cur += adv
-            if cur >= len(lines):
-                raise PestError('instruction for %s runs past the end of '
-                                'the file' % name)
-            out.append((name, lines[cur][c1 - 1:c2], lines[cur]))
+    for items in instr:
+        for item in items:
+            kind = item[0]
+            if kind == 'marker' and item[2]:
+                k = cur + 1
+                while k < len(lines) and item[1] not in lines[k]:
+                    k += 1
+                if k >= len(lines):
+                    raise PestError('marker %r not found' % item[1])
+                cur = k
+                col = lines[k].index(item[1]) + len(item[1])
+            elif kind == 'marker':
+                pos = lines[cur].find(item[1], col)
+                if pos < 0:
+                    raise PestError('secondary marker %r not found'
+                                    % item[1])
+                col = pos + len(item[1])
+            elif kind == 'line':
+                cur += item[1]
+                col = 0
+                if cur >= len(lines):
+                    raise PestError('instructions run past the end of the '
+                                    'file')
+            elif kind == 'w':
+                line = lines[cur]
+                while col < len(line) and not line[col].isspace():
+                    col += 1
+                while col < len(line) and line[col].isspace():
+                    col += 1
+            elif kind == 'fixed':
+                _, name, c1, c2 = item
+                out.append((name, lines[cur][c1 - 1:c2], lines[cur]))
+                col = c2
+            elif kind == 'semi':
+                _, name, c1, c2 = item
+                line = lines[cur]
+                a = c1 - 1
+                while a < min(c2, len(line)) and line[a].isspace():
+                    a += 1
+                start = a
+                while start > 0 and not line[start - 1].isspace():
+                    start -= 1
+                end = a
+                while end < len(line) and not line[end].isspace():
+                    end += 1
+                out.append((name, line[start:end], line))
+                col = end
+            elif kind == 'free':
+                line = lines[cur]
+                while col < len(line) and line[col].isspace():
+                    col += 1
+                end = col
+                while end < len(line) and not (line[end].isspace()
+                                               or line[end] == ','):
+                    end += 1
+                if item[1] != 'dum':
+                    out.append((item[1], line[col:end], line))
+                col = end
     return out
